@@ -286,6 +286,12 @@ func c02ExtGen(t *rapid.T) c02Ext {
 
 func TestVerif_C02(t *testing.T) {
 	defer vfStats.dump()
+	if vfOnlySub("static") {
+		vfRunStatic(t, "C02", 0)
+	}
+	if t.Failed() {
+		return
+	}
 	if vfOnlySub("extended") {
 		vfRun(t, vfSub[c02Ext]{Prop: "C02", Name: "extended", Checks: vfN(30000, 2000000), Gen: c02ExtGen, Check: c02ExtCheck})
 	}
